@@ -87,6 +87,11 @@ type Scenario struct {
 	Env     Env               `json:"env"`
 	Census  bool              `json:"census,omitempty"`
 	StepCap int               `json:"step_cap,omitempty"`
+	// slow consumer in real time (the library has no clock seam): every
+	// ConsStallEvery-th arrival of a writer goroutine at one of its hook sites
+	// sleeps ConsStallMs before it parks
+	ConsStallMs    int `json:"cons_stall_ms,omitempty"`
+	ConsStallEvery int `json:"cons_stall_every,omitempty"`
 	Note    string            `json:"note,omitempty"`
 }
 
